@@ -91,14 +91,16 @@ constexpr std::array<u64, sizeof...(P)> masks(L<P...>)
 }
 
 template <class X>
-std::uintptr_t first_addr(X& x)
+std::uintptr_t first_addr(const X& x)
 {
-    return addr_of(&x);
-}
-template <class X>
-std::uintptr_t first_addr(const cntgs::Span<X>& x)
-{
-    return addr_of(x.data());
+    if constexpr (IS_SPAN<X>)
+    {
+        return addr_of(x.data());
+    }
+    else
+    {
+        return addr_of(&x);
+    }
 }
 template <class VecT>
 void structured_bindings(VecT& v, usize i)
